@@ -19,11 +19,46 @@ pub struct Case {
 }
 
 pub const PAGES: [usize; 8] = [0, 4096, 8192, 16384, 256, 512, 1024, 2048];
-pub const PAYLOADS: [&str; 17] = [
+pub const PAYLOADS: [&str; 20] = [
     "u64", "P1A1D", "P3A1", "P3A1D", "P8A8D", "P6A2D", "P24A4D", "P24A16D", "P100A4", "P100A1D", "P500A2D", "P1000A16D",
-    "P2000A8D", "Heapy", "FaultyDrop", "P40A32D", "P64A64D",
+    "P2000A8D", "Heapy", "FaultyDrop", "P40A32D", "P64A64D", "P200A1D", "P208A8D", "P4047A1D",
 ];
-const PAYLOAD_SIZES: [usize; 17] = [8, 1, 3, 3, 8, 6, 24, 32, 100, 100, 500, 1008, 2000, 56, 16, 128, 160];
+
+macro_rules! per_payload {
+    ($idx:expr, $m:ident) => {
+        match $idx {
+            0 => $m!(u64),
+            1 => $m!(cq::P1A1D),
+            2 => $m!(cq::P3A1),
+            3 => $m!(cq::P3A1D),
+            4 => $m!(cq::P8A8D),
+            5 => $m!(cq::P6A2D),
+            6 => $m!(cq::P24A4D),
+            7 => $m!(cq::P24A16D),
+            8 => $m!(cq::P100A4),
+            9 => $m!(cq::P100A1D),
+            10 => $m!(cq::P500A2D),
+            11 => $m!(cq::P1000A16D),
+            12 => $m!(cq::P2000A8D),
+            13 => $m!(cq::Heapy),
+            14 => $m!(cq::FaultyDrop),
+            15 => $m!(cq::P40A32D),
+            16 => $m!(cq::P64A64D),
+            17 => $m!(cq::P200A1D),
+            18 => $m!(cq::P208A8D),
+            _ => $m!(cq::P4047A1D),
+        }
+    };
+}
+
+fn node_size_of(payload: usize) -> usize {
+    macro_rules! ns {
+        ($t:ty) => {
+            cq::node_size::<$t>()
+        };
+    }
+    per_payload!(payload % PAYLOADS.len(), ns)
+}
 
 pub struct C15;
 
@@ -32,8 +67,8 @@ fn page_for(case: &Case) -> Option<usize> {
     if p == 0 {
         return None;
     }
-    // a node (payload + ~64 bytes of links, time, id, padding) must fit into one page
-    let need = PAYLOAD_SIZES[case.payload as usize % PAYLOADS.len()] + 96;
+    // a node must fit into one page; any size up to the page size itself does
+    let need = node_size_of(case.payload as usize);
     if p < need {
         Some(4096)
     } else {
@@ -54,25 +89,12 @@ pub fn run_case(case: &Case) -> Outcome {
             cq::interpret::<$t>(&case.params, &case.ops, &opt)
         };
     }
-    let r = match case.payload as usize % PAYLOADS.len() {
-        0 => go!(u64),
-        1 => go!(cq::P1A1D),
-        2 => go!(cq::P3A1),
-        3 => go!(cq::P3A1D),
-        4 => go!(cq::P8A8D),
-        5 => go!(cq::P6A2D),
-        6 => go!(cq::P24A4D),
-        7 => go!(cq::P24A16D),
-        8 => go!(cq::P100A4),
-        9 => go!(cq::P100A1D),
-        10 => go!(cq::P500A2D),
-        11 => go!(cq::P1000A16D),
-        12 => go!(cq::P2000A8D),
-        13 => go!(cq::Heapy),
-        14 => go!(cq::FaultyDrop),
-        15 => go!(cq::P40A32D),
-        _ => go!(cq::P64A64D),
-    };
+    // at most 20000 pages per history (the longest generated history needs a few thousand): see lib.rs, page_budget
+    #[cfg(not(any(vcheck_miri, vcheck_heap_backend)))]
+    crate::page_budget::arm(Some(20_000));
+    let r = per_payload!(case.payload as usize % PAYLOADS.len(), go);
+    #[cfg(not(any(vcheck_miri, vcheck_heap_backend)))]
+    crate::page_budget::arm(None);
     match r {
         Err(f) => Outcome::failed(f),
         Ok(fl) => {
@@ -106,7 +128,7 @@ impl Prop for C15 {
     type Case = Case;
 
     fn rule() -> String {
-        "proptest histories (the C01 op generator) x 17 payload types (1 byte .. 2000 bytes, align 1..64, with/without destructor, one owning heap \
+        "proptest histories (the C01 op generator) x 20 payload types (1 byte .. 4047 bytes, align 1..64, node sizes up to exactly one page and 8 bytes short of a page, with/without destructor, one owning heap \
          memory, one whose destructor panics on demand during a cancel) x page sizes {system, 4K, 8K, 16K, 256..2048} x queue parameterisations, optionally dropping the queue with events pending; oracle = \
          after ops the hook snapshot must show pairwise disjoint, aligned, in-page live nodes (incl. the 2n sentinels), disjoint in-page free regions, \
          allocated_mem == live*node size; payload bytes intact on fetch; per-payload drop counter exactly 1 after fetch/cancel/queue drop and 0 while \
@@ -115,7 +137,7 @@ impl Prop for C15 {
     }
     fn assumptions() -> Vec<String> {
         vec![
-            "node fits a page (payload + 96 bytes <= page size), page sizes are powers of two".into(),
+            "node fits a page (node size <= page size, both boundary cases included: a node exactly as large as the page and one 8 bytes smaller), page sizes are powers of two".into(),
             "intra-page overlap is judged from the hook snapshot; out-of-page access is left to the ASan fuzz target (thorough)".into(),
         ]
     }
